@@ -306,6 +306,66 @@ static void worker (long start, void *user)
       on_prog (&p, &start);
     }
   }
+  /* LN: the .n directive in every form: each ordered selection of the hints mult/min/max, alone or followed by a
+   * constant n, against orc_program_set_n_multiple/_minimum/_maximum/set_constant_n; compared field by field, on the
+   * error count of the parse, and by emulation */
+  if (shard == 0 && start == 0) {
+    static const char *hint[3] = { "mult", "min", "max" };
+    static const int hval[3] = { 4, 8, 32 };
+    int sel, cn, fm;
+    for (sel = 0; sel < 4 * 4 * 4; sel++) for (cn = 0; cn < 2; cn++) for (fm = 0; fm < 2; fm++) {
+      int h[3] = { sel & 3, sel >> 2 & 3, sel >> 4 & 3 }, k, used = 0, nh = 0, ok = 1, n, errs;
+      char line[200], text[600], *log = NULL, msg[300];
+      size_t o = 0;
+      OrcProgram *p, **progs = NULL;
+      Fmt f;
+      VProg dummy;
+      /* h[k]==3: no hint in this position; positions filled from the left, no hint twice */
+      for (k = 0; k < 3; k++) { if (h[k] == 3) { int j; for (j = k + 1; j < 3; j++) if (h[j] != 3) ok = 0; } else { if (used >> h[k] & 1) ok = 0; used |= 1 << h[k]; nh++; } }
+      if (!ok || (!nh && !cn)) continue;
+      o += snprintf (line + o, sizeof (line) - o, fm ? "\t.n" : ".n");
+      for (k = 0; k < nh; k++) o += snprintf (line + o, sizeof (line) - o, fm ? "\t%s\t%d" : " %s %d", hint[h[k]], hval[h[k]]);
+      if (cn) o += snprintf (line + o, sizeof (line) - o, " 16");
+      if (fm) o += snprintf (line + o, sizeof (line) - o, " # hints");
+      snprintf (text, sizeof (text), ".function vLN_%d_%d\n%s\n.dest 2 d1\n.source 2 s1\naddw d1, s1, 3\n", sel, cn, line);
+      p = orc_program_new ();
+      snprintf (msg, sizeof (msg), "vLN_%d_%d", sel, cn);
+      orc_program_set_name (p, msg);
+      for (k = 0; k < nh; k++) {
+        if (h[k] == 0) orc_program_set_n_multiple (p, hval[0]);
+        if (h[k] == 1) orc_program_set_n_minimum (p, hval[1]);
+        if (h[k] == 2) orc_program_set_n_maximum (p, hval[2]);
+      }
+      if (cn) orc_program_set_constant_n (p, 16);
+      orc_program_add_destination (p, 2, "d1");
+      orc_program_add_source (p, 2, "s1");
+      orc_program_add_constant (p, 2, 3, "c1");
+      orc_program_append_str (p, "addw", "d1", "s1", "c1");
+      st_programs++; st_renderings++;
+      memset (&f, 0, sizeof (f)); memset (&dummy, 0, sizeof (dummy));
+      snprintf (dummy.name, sizeof (dummy.name), "vLN");
+      n = orc_parse_full (text, &progs, &log);
+      errs = 0;
+      if (log) { const char *c; for (c = log; *c; c++) if (*c == '\n') errs++; if (*log && !errs) errs = 1; }
+      msg[0] = 0;
+      if (n != 1 || !progs || !progs[0]) snprintf (msg, sizeof (msg), "`%s`: %d programs parsed", line, n);
+      else if (errs) snprintf (msg, sizeof (msg), "`%s`: the parser reports %d error line(s): %.150s", line, errs, log);
+      else {
+        OrcProgram *q = progs[0];
+        if (q->constant_n != p->constant_n || q->n_multiple != p->n_multiple || q->n_minimum != p->n_minimum || q->n_maximum != p->n_maximum)
+          snprintf (msg, sizeof (msg), "`%s`: parsed constant_n/multiple/minimum/maximum = %d/%d/%d/%d, built through the API %d/%d/%d/%d", line,
+              q->constant_n, q->n_multiple, q->n_minimum, q->n_maximum, p->constant_n, p->n_multiple, p->n_minimum, p->n_maximum);
+        else { char m2[200]; if (emulate_equal (p, q, m2, sizeof (m2))) snprintf (msg, sizeof (msg), "`%s`: %s", line, m2); }
+      }
+      if (msg[0]) {
+        char cls[60];
+        snprintf (cls, sizeof (cls), "n-directive|%s%s%s%s", nh > 0 ? hint[h[0]] : "", nh > 1 ? hint[h[1]] : "", nh > 2 ? hint[h[2]] : "", cn ? "+n" : "");
+        viol (&dummy, cls, msg, text, &f, 0);
+      }
+      if (log) free (log);
+      orc_program_free (p);
+    }
+  }
   if (strstr (g_levels, "L1")) pgen_L1 (on_prog, &start, PG_INT | PG_FLOAT);
   if (strstr (g_levels, "L2")) pgen_L2 (on_prog, &start, PG_INT | PG_FLOAT);
   if (strstr (g_levels, "L3")) { pgen_L3 (on_prog, &start, PG_INT); pgen_L3 (on_prog, &start, PG_FLOAT); }
